@@ -247,6 +247,7 @@ class Interp:
         self.trace_calls = False
         self.approx = []  # over-approximations used on the current path (uninterpreted string functions, opaque results)
         self.live_gens = []
+        self.memo_obj_funcs = []
         self.native_method_models = {}  # (native base class, method name) -> model(it, obj, *args): methods an interpreted class inherits from a standard-library class
         from .models import install_all
 
@@ -262,6 +263,8 @@ class Interp:
             prefix = work.pop()
             self.pc, self.dec, self.pos, self.work = [], list(prefix), 0, work
             self.events, self.writes, self.allocs, self.depth, self.stack, self.approx = [], [], [], 0, [], []
+            for f_ in self.memo_obj_funcs:  # caches keyed by interpreted objects start empty on every path (the objects of other paths are gone)
+                f_.__dict__["memo_obj"] = []
             try:
                 v = thunk()
                 results.append(PathResult(list(self.pc), "return", v, list(self.events), list(self.writes), self.approx))
@@ -1149,6 +1152,18 @@ class Interp:
                     if key not in memo:
                         memo[key] = self.run_function(fn, args, kwargs)  # (an exception is not cached, like functools)
                     return memo[key]
+            if memo is not None and not kwargs and args and all(self._memo_keyable(a) for a in kargs):
+                # arguments that are objects of interpreted classes (descriptors, tuples of them): the cache finds an entry through their own
+                # __hash__ / __eq__, so two EQUAL objects share an entry - exactly what a cached function has to get right
+                entries = fn.__dict__.setdefault("memo_obj", [])
+                if fn not in self.memo_obj_funcs:
+                    self.memo_obj_funcs.append(fn)
+                for old_args, res in entries:
+                    if len(old_args) == len(kargs) and all(self._memo_same(x_, y_) for x_, y_ in zip(old_args, kargs)):
+                        return res
+                res = self.run_function(fn, args, kwargs)
+                entries.append((list(kargs), res))
+                return res
             return self.run_function(fn, args, kwargs)
         if isinstance(fn, PClass):
             return self.instantiate(fn, args, kwargs)
@@ -1183,6 +1198,27 @@ class Interp:
         if not callable(fn):
             raise PyRaise(TypeError(f"'{self.type_name(fn)}' object is not callable"))
         return self.call_native(fn, args, kwargs)
+
+    def _memo_keyable(self, a):
+        if isinstance(a, PObj):
+            return not a.has_base and isinstance(a.cls.find("__hash__"), PFunc)
+        if isinstance(a, tuple):
+            return all(self._memo_keyable(x) for x in a)
+        return self.concrete(a) and not isinstance(a, (list, dict, set))
+
+    def _memo_same(self, a, b):
+        if isinstance(a, tuple) or isinstance(b, tuple):
+            return isinstance(a, tuple) and isinstance(b, tuple) and len(a) == len(b) and all(self._memo_same(x, y) for x, y in zip(a, b))
+        if isinstance(a, PObj) or isinstance(b, PObj):
+            if a is b:
+                return True
+            if not (isinstance(a, PObj) and isinstance(b, PObj)):
+                return False
+            ha, hb = self.hash_(a), self.hash_(b)
+            if self.concrete(ha) and self.concrete(hb) and ha != hb:
+                return False
+            return bool(self.truth(self.compare("Eq", a, b)))
+        return type(a) is type(b) and a == b
 
     def call_native(self, fn, args, kwargs):
         if fn in (enumerate, zip, reversed, iter, itertools.chain, itertools.zip_longest) and any(isinstance(a, PObj) for a in args):
